@@ -219,6 +219,93 @@ def abs_rule(rep, prog):
 
 
 
+def _round_f32(fr):
+    """the binary32 value nearest to the rational fr (ties to even); no double rounding"""
+    import struct, math
+    if fr == 0:
+        return 0.0
+    d = float(fr)
+    try:
+        c = struct.unpack("<f", struct.pack("<f", d))[0]
+    except OverflowError:
+        return math.copysign(float("inf"), d)
+    if not math.isfinite(c):
+        return c
+    bits = struct.unpack("<I", struct.pack("<f", c))[0]
+    cands = [c]
+    for nb in (bits + 1, bits - 1):
+        v = struct.unpack("<f", struct.pack("<I", nb & 0xFFFFFFFF))[0]
+        if math.isfinite(v):
+            cands.append(v)
+    return min(cands, key=lambda v: (abs(Fraction(v) - fr), struct.unpack("<I", struct.pack("<f", v))[0] & 1))
+
+
+F3_GRID_X = (5.5, 0.3, 7.0, 100.25, 1e9, 16777216.0, 1e20, 3.0e38)
+F3_GRID_M = (3.0, 1.0, 0.1, 7.5, 7.0)
+
+
+def _f3_witness(prog, rb):
+    """constant folding of fallback::rem_euclid in exact binary32 arithmetic on F3_GRID (both signs of x). Returns (disagreements, n):
+    a disagreement is a result that is not finite, outside [0, m], or further than m/1024 from the exact remainder modulo m (rounding-level differences are not counted)."""
+    import math, struct
+    from . import symalg as S, absint as A
+    f32 = lambda v: struct.unpack("<f", struct.pack("<f", v))[0]
+    bad, n = [], 0
+    for x0 in F3_GRID_X:
+        for sx in (1.0, -1.0):
+            for m0 in F3_GRID_M:
+                x, m = f32(sx * x0), f32(m0)
+                neg = math.copysign(1.0, x) < 0
+                bits = lambda it_, a_, _c, _d: struct.unpack("<I", struct.pack("<f", A.deref_all(it_, a_[0])[1]))[0]
+                it = S.interp(prog, models={"f32>::is_sign_negative": lambda it_, a_, _c, _d: int(math.copysign(1.0, A.deref_all(it_, a_[0])[1]) < 0),
+                                            "f32>::is_sign_positive": lambda it_, a_, _c, _d: int(math.copysign(1.0, A.deref_all(it_, a_[0])[1]) > 0),
+                                            "f32>::to_bits": bits}, oracle=lambda op, a_, b_: None)
+                plain, plain_rv = it.binop, it.rvalue
+
+                def binop(op, a_, b_, ty, plain=plain):
+                    base = op.replace("Unchecked", "")
+                    if ty == "f32" and isinstance(a_, tuple) and a_[0] == "f" and isinstance(b_, tuple) and b_[0] == "f" \
+                            and base in ("Add", "Sub", "Mul", "Div", "Rem") and math.isfinite(a_[1]) and math.isfinite(b_[1]):
+                        p, q = Fraction(a_[1]), Fraction(b_[1])
+                        if base in ("Div", "Rem") and q == 0:
+                            raise A.Undecided("division by a zero constant")
+                        if base == "Rem":
+                            return ("f", math.fmod(a_[1], b_[1]))
+                        r = {"Add": p + q, "Sub": p - q, "Mul": p * q, "Div": p / q if q else 0}[base]
+                        if r == 0:
+                            # the sign of an exact zero: +0 except for (-0)+(-0), (-0)-(+0) and products/quotients of unlike signs
+                            fz = {"Add": lambda: a_[1] + b_[1], "Sub": lambda: a_[1] - b_[1], "Mul": lambda: a_[1] * b_[1],
+                                  "Div": lambda: a_[1] / b_[1]}[base]()
+                            return ("f", fz)
+                        return ("f", _round_f32(r))
+                    return plain(op, a_, b_, ty)
+
+                def rvalue(fr, rv, lhs_ty=None, plain_rv=plain_rv, it=it):
+                    if rv.get("k") == "Cast" and rv.get("ck") == "IntToFloat" and rv.get("to") == "f32":
+                        v = it.operand(fr, rv["a"])
+                        if isinstance(v, int):
+                            fb = A.INT_BITS.get(rv["from"], 64)
+                            if rv["from"].startswith("i") and (v >> (fb - 1)) & 1:
+                                v -= 1 << fb
+                            return ("f", _round_f32(Fraction(v)))
+                    return plain_rv(fr, rv, lhs_ty)
+                it.binop, it.rvalue = binop, rvalue
+                try:
+                    y = A.deref_all(it, it.call_body(rb, [("f", x), ("f", m)]))
+                except (A.Undecided, A.Panic, S.NotPolynomial):
+                    continue
+                if not (isinstance(y, tuple) and y[0] == "f"):
+                    continue
+                n += 1
+                y = y[1]
+                r = math.fmod(x, m)
+                s = r if r >= 0 and not (r == 0 and neg) else _round_f32(Fraction(r) + Fraction(m))
+                ok = math.isfinite(y) and 0 <= y <= m and min(abs(y - s), abs(y - s - m), abs(y - s + m)) <= m / 1024.0
+                if not ok:
+                    bad.append((x, m, y, s))
+    return bad, n
+
+
 def fallback_rules(rep, prog):
     cfg = prog.config
     # ---- F1
@@ -264,6 +351,17 @@ def fallback_rules(rep, prog):
             v = A.deref_all(it, it.call_body(rb, [S.sym("X"), S.sym("M")]))
             got[neg] = S.to_poly(v)
         except (A.Undecided, A.Panic, S.NotPolynomial) as e:
+            # not the exact form: before answering "cannot analyse", fold the function in exact binary32 arithmetic on a grid of
+            # constant arguments; a result that is out of [0, m] or not congruent to x there is a counterexample, not a guess
+            bad, n = _f3_witness(prog, rb)
+            if bad:
+                rep.inst("C20.F3", "fallback::rem_euclid is not of the form (x %% m) + [x negative]*m (%s); folded in binary32 on %d constant "
+                                   "argument pairs: %d disagree with the exact remainder" % (e, n, len(bad)), config=cfg)
+                rep.violate("C20.F3", "F3|fallback-rem", rb.where(),
+                            "the built-in rem_euclid, folded in binary32 arithmetic, leaves [0, m] or is not congruent to x: %s"
+                            % "; ".join("rem_euclid(%r, %r) = %r, exact %r" % b for b in bad[:4]), config=cfg)
+                newton_recip(rep, prog, FL + "fallback::recip_sqrt", ("f32>::from_bits",))
+                return
             raise common.Infra("C20.F3: fallback::rem_euclid has a form the rule cannot interpret (%s)" % e)
     R = "?%r" % (("symop", "Rem", S.sym("X"), S.sym("M")),)
     want = {False: {(R,): Fraction(1)}, True: {(R,): Fraction(1), ("M",): Fraction(1)}}
